@@ -803,6 +803,8 @@ class DecoderLayout:
         r = self._rel_to(e, v)
         if r is None:
             return None
+        if self.hdr.get("plus") is None:
+            self.hdr["plus"] = 1       # offsets are taken relative to v+d+1 by construction
         return r.add(Lin(-1 - (self.hdr.get("d") or 0)))
 
     def cursor_of(self, n):
@@ -825,6 +827,20 @@ class DecoderLayout:
             return n.value.id, base.add(lo), (base.add(hi) if hi is not None else None)
         return None
 
+    def _byte_offset(self, n):
+        """Body offset of a single byte read rest[i] / pkt[v+k] / int(..) of those, or None."""
+        if isinstance(n, ast.Call) and isinstance(n.func, ast.Name) and n.func.id == "int" and len(n.args) == 1:
+            return self._byte_offset(n.args[0])
+        if isinstance(n, ast.Subscript) and isinstance(n.value, ast.Name) and not isinstance(n.slice, ast.Slice):
+            if n.value.id in self.cursors:
+                try:
+                    return self.cursors[n.value.id].add(self.lin(n.slice))
+                except AnalysisError:
+                    return None
+            if n.value.id == self.pkt:
+                return self._hdr_rel(n.slice)
+        return None
+
     def read_expr(self, n, target):
         """Recognise an expression that reads from the packet; returns a read record or None."""
         # strip int()
@@ -840,6 +856,18 @@ class DecoderLayout:
                 width = d
             self.nsym += 1
             return self.rec("u16", target, c[1], width=width, node=n, sym="N%d" % self.nsym)
+        if isinstance(n, ast.BinOp) and isinstance(n.op, (ast.Add, ast.BitOr)):
+            # hi*256 + lo / (hi << 8) | lo over two neighbouring bytes: decode16Int written in place
+            hi, lo = n.left, n.right
+            scaled = None
+            if isinstance(hi, ast.BinOp) and ((isinstance(hi.op, ast.Mult) and self.fold(hi.right) == (True, 256)) or
+                                              (isinstance(hi.op, ast.LShift) and self.fold(hi.right) == (True, 8))):
+                scaled = hi.left
+            if scaled is not None:
+                o1, o2 = self._byte_offset(scaled), self._byte_offset(lo)
+                if o1 is not None and o2 is not None and o2 == o1.add(Lin(1)):
+                    self.nsym += 1
+                    return self.rec("u16", target, o1, width=2, node=n, sym="N%d" % self.nsym)
         if isinstance(n, ast.Subscript) and isinstance(n.value, ast.Name) and not isinstance(n.slice, ast.Slice):
             if n.value.id in self.cursors:
                 return self.rec("byte", target, self.cursors[n.value.id].add(self.lin(n.slice)), node=n, xform=None)
